@@ -1,5 +1,6 @@
 (* C02 — linear-system solvers and matrix decompositions satisfy their defining equations.
-   Only statements + `exact`; proofs live in C02Proofs.v / C02QProofs.v, the executable model in C02Model.v.
+   Only statements + `exact`; proofs live in C02Proofs.v / C02CholBlkProofs.v / C02LUProofs.v / C02LURightProofs.v /
+   C02BlkTotalProofs.v / C02QProofs.v, the executable model in C02Model.v and C02BlkModel.v (blocked potrf, getrf, LU solve).
 
    PROVED (for every size n, over every field given as a record of operations with `field_theory`; in
    particular over Qc, the instantiation the extracted model runs with — Section variables, no axioms):
@@ -13,13 +14,37 @@
        required to be exact only on the pivots met (sqrt_exact_lower, sqrt_exact_upper), satisfiable over Q (ex_sqrt_exact);
        a reported failure names a non-positive pivot;
      * Cholesky solve = two triangular solves gives A x = b for the symmetric matrix whose lower triangle is stored;
-     * inv(T) % v (solution operator applied to v) equals solve(T,v) (lower triangular case).
-   ONLY COMPARED / MONITORED by tools/c02.py (no theorem): the blocked potrf recursion (n > 32; its result is
-   compared with the unblocked model, the factor being unique), column-major dispatch of potrf, pivoted Cholesky
-   (pstrf) and the semi-definite least-squares solver, pivoted LU (getrf), symmetric eigen-decomposition,
-   conjugate gradient, Cholesky rank-one update, the OpenBLAS bindings, all floating-point rounding. *)
-From Coq Require Import List Arith Bool Lia Field QArith Qcanon.
-From SharkV Require Import C02Model C02Proofs C02Q C02QProofs.
+     * inv(T) % v (solution operator applied to v) equals solve(T,v) (lower triangular case);
+     * the BLOCKED Cholesky recursion potrf_recursive of kernels/default/potrf.hpp (split, trsm<upper,right>, syrk<false>,
+       diagonal blocks by the left-looking kernel on a sub-range), for every size, every block size > 0 of potrf and of
+       trsm: a successful run returns pointwise the factor the unblocked kernel returns on the whole matrix
+       (C02_potrf_blocked_is_unblocked), hence L L^T = A, non-zero diagonal, upper triangle untouched
+       (C02_potrf_blocked_correct); conversely it succeeds whenever the unblocked kernel does
+       (C02_potrf_unblocked_implies_blocked), so the two fail on the same matrices;
+     * the pivoted LU of kernels/default/getrf.hpp -- getrf_block (pivot search: a later row replaces the current pivot
+       only if std::abs(A(i,j)) > std::abs(pivot_value), strictly; row swap inside the panel; division by the pivot;
+       rank-one update), getrf_recursive (panel recursion, swap_rows of the other panel, trsm<unit_lower,left>, gemm,
+       second swap_rows) and getrf, for every size and every block size > 0: on success P A = L U with L the
+       unit lower and U the upper triangle of the returned matrix, every pivot-vector entry P(t) lies in [t,n), the
+       row map it denotes is a permutation of 0..n-1, no pivot (diagonal of U) is zero (C02_getrf_PA_LU); getrf returns
+       either that or the exception, the model's out-of-fuel result is unreachable (C02_getrf_no_exc);
+       over the order/abs laws (section OrderedField; they hold over Qc, C02_Q_order_instance) additionally
+       |L_ij| <= 1 (C02_getrf_multipliers_le_1), the pivot is an entry of largest absolute value of the remaining
+       column and the first such (C02_pivot_rule), and the exception is thrown only at a column j whose entries in
+       rows j..n-1 of the matrix left behind are all zero (C02_getrf_fail_zero_column; conversely a successful run
+       has no zero pivot);
+     * pivoting_lu_decomposition::solve(b,left) = swap_rows(P,b), trsv<unit_lower>, trsv<upper> returns x with
+       A x = b and always returns (C02_lu_solve_correct, C02_lu_solve_total); solve(A,b,indefinite_full_rank,left) as a
+       whole (C02_lu_solve_full_correct); solve(b,right) = trsv<upper,right>, trsv<unit_lower,right>,
+       swap_rows_inverted(P,b) returns x with x A = b (C02_lu_solve_right_correct).
+   ONLY COMPARED / MONITORED by tools/c02.py (no theorem): the value potrf returns on failure (the index is relative to
+   the diagonal block that failed; compared with the model); the blocked
+   potrf when the diagonal blocks use the right-looking kernel (column-major lower / row-major upper, n > 32: compared
+   with the unblocked model, the factor being unique); pivoted Cholesky (pstrf) and the semi-definite least-squares
+   solver; matrix right-hand sides of the LU class (the model applies the vector routine column by column / row by
+   row; compared exactly); symmetric eigen-decomposition, conjugate gradient, Cholesky rank-one update, the OpenBLAS bindings, all floating-point rounding. *)
+From Coq Require Import List Arith Bool Lia Field QArith Qcanon Permutation.
+From SharkV Require Import C02Model C02Proofs C02Q C02QProofs C02BlkModel C02LUProofs C02CholBlkProofs C02BlkTotalProofs C02LURightProofs.
 Local Close Scope Qc_scope. Local Close Scope Q_scope. Local Open Scope nat_scope.
 
 Section AnyField.
@@ -90,6 +115,94 @@ Theorem C02_inv_prod_is_solve_partial : forall n unit (T : mat A) (X : nat -> ve
   (forall i, i < n -> mv A F n (tri A F false unit T) y i = v i) ->
   forall i, i < n -> sumr A F 0 n (fun k => fmul F (X k i) (v k)) = y i.
 Proof. exact (inv_prod_is_solve_lower A F Fth). Qed.
+
+(* ---- blocked Cholesky recursion (potrf_recursive, lower, diagonal blocks by the left-looking kernel) ---- *)
+Theorem C02_potrf_blocked_is_unblocked : forall bs tbs fuel n (M L : mat A), 0 < bs -> 0 < tbs ->
+  potrf_rec A F bs tbs fuel n 0 n M = BOk A L ->
+  exists L', potrf_lower A F n n M = POk A L' /\ forall i c, L' i c = L i c.
+Proof. exact (potrf_rec_unblocked A F Fth feqb_spec). Qed.
+
+Theorem C02_potrf_blocked_correct : forall bs tbs fuel n (M L : mat A), 0 < bs -> 0 < tbs ->
+  sqrt_exact_lower A F n n M -> potrf_rec A F bs tbs fuel n 0 n M = BOk A L ->
+  (forall i c, c <= i < n -> sumr A F 0 (S c) (fun t => fmul F (L i t) (L c t)) = M i c) /\
+  (forall c, c < n -> L c c <> fzero F) /\
+  (forall i c, i < c -> L i c = M i c).
+Proof. exact (potrf_rec_correct A F Fth feqb_spec fleb_00). Qed.
+
+(* conversely (fuel = n, what the dispatcher passes): the blocked recursion succeeds whenever the unblocked kernel does *)
+Theorem C02_potrf_unblocked_implies_blocked : forall bs tbs n (M L' : mat A), 0 < bs -> 0 < tbs ->
+  sqrt_exact_lower A F n n M -> potrf_lower A F n n M = POk A L' ->
+  exists L, potrf_rec A F bs tbs n n 0 n M = BOk A L /\ forall i c, L' i c = L i c.
+Proof. exact (potrf_unblocked_rec_sq A F Fth feqb_spec fleb_00). Qed.
+
+(* ---- pivoted LU (getrf_block / getrf_recursive / getrf), algebraic part ---- *)
+Variable fabs : A -> A.
+
+Theorem C02_getrf_PA_LU : forall bs tbs n (M0 LU : mat A) P, 0 < bs -> 0 < tbs ->
+  getrf A F fabs bs tbs n M0 = LUOk A LU P ->
+  (forall i c, i < n -> c < n ->
+     sumr A F 0 n (fun t => fmul F (tri A F false true LU i t) (tri A F true false LU t c)) = M0 (perm_of P 0 n i) c) /\
+  (forall t, t < n -> t <= P t < n) /\
+  Permutation (map (perm_of P 0 n) (seq 0 n)) (seq 0 n) /\
+  (forall c, c < n -> LU c c <> fzero F).
+Proof. exact (getrf_PA_LU A F fabs Fth feqb_spec). Qed.
+
+(* the model's third result (out of fuel / exception from trsm) is unreachable: getrf returns LUOk or LUFail *)
+Theorem C02_getrf_no_exc : forall bs tbs n (M : mat A), 0 < bs -> 0 < tbs -> getrf A F fabs bs tbs n M <> LUExc A.
+Proof. exact (getrf_no_exc A F fabs feqb_spec). Qed.
+
+Theorem C02_lu_solve_correct : forall bs tbs n o (M0 LU : mat A) P b x, 0 < bs -> 0 < tbs ->
+  getrf A F fabs bs tbs n M0 = LUOk A LU P -> lu_solve A F o LU P n b = Some x ->
+  forall k, k < n -> mv A F n M0 x k = b k.
+Proof. exact (lu_solve_correct_alg A F fabs Fth feqb_spec). Qed.
+
+(* solve(b, right): trsv<upper,right>, trsv<unit_lower,right>, swap_rows_inverted(P,b) gives x A = b *)
+Theorem C02_lu_solve_right_correct : forall bs tbs n o (M0 LU : mat A) P b x, 0 < bs -> 0 < tbs ->
+  getrf A F fabs bs tbs n M0 = LUOk A LU P -> lu_solve_right A F o LU P n b = Some x ->
+  forall c, c < n -> vm A F n x M0 c = b c.
+Proof. exact (lu_solve_right_correct_alg A F fabs Fth feqb_spec). Qed.
+
+Theorem C02_lu_solve_total : forall bs tbs n o (M0 LU : mat A) P b, 0 < bs -> 0 < tbs ->
+  getrf A F fabs bs tbs n M0 = LUOk A LU P -> exists x, lu_solve A F o LU P n b = Some x.
+Proof. exact (lu_solve_total_alg A F fabs Fth feqb_spec). Qed.
+
+Theorem C02_lu_solve_full_correct : forall bs tbs n o (M0 : mat A) b x, 0 < bs -> 0 < tbs ->
+  lu_solve_full A F fabs bs tbs o M0 n b = Some x -> forall k, k < n -> mv A F n M0 x k = b k.
+Proof. exact (lu_solve_full_correct_alg A F fabs Fth feqb_spec). Qed.
+
+(* ---- the pivot rule: order / absolute-value laws (fltb x y : x < y, fleb x y : x <= y, fabs : std::abs) ---- *)
+Section OrderedField.
+Hypothesis lt_irrefl : forall x, fltb F x x = false.
+Hypothesis lt_trans : forall x y z, fltb F y x = false -> fltb F y z = true -> fltb F z x = false.
+Hypothesis lt_le_trans : forall x y z, fltb F y x = false -> fltb F y z = true -> fltb F x z = true.
+Hypothesis le_of_nlt : forall x y, fltb F y x = false -> fleb F x y = true.
+Hypothesis le_mul_r : forall x y z, fleb F x y = true -> fltb F (fzero F) z = true -> fleb F (fmul F x z) (fmul F y z) = true.
+Hypothesis abs_mul : forall x y, fabs (fmul F x y) = fmul F (fabs x) (fabs y).
+Hypothesis abs_pos : forall x, x <> fzero F -> fltb F (fzero F) (fabs x) = true.
+Hypothesis abs_0 : fabs (fzero F) = fzero F.
+
+(* rows j .. j+k of column j scanned: no entry is larger in absolute value than the pivot, every earlier row is smaller *)
+Theorem C02_pivot_rule : forall (M : mat A) j k pv p, pivot_scan A F fabs M j k = (pv, p) ->
+  j <= p <= j + k /\ pv = M p j /\
+  (forall i, j <= i <= j + k -> fltb F (fabs pv) (fabs (M i j)) = false) /\
+  (forall i, j <= i < p -> fltb F (fabs (M i j)) (fabs pv) = true).
+Proof.
+  intros M j k pv p H. destruct (pivot_scan_loc A F fabs M j k pv p H) as [H1 H2].
+  exact (conj H1 (conj H2 (conj (pivot_scan_max A F fabs lt_irrefl lt_trans M j k pv p H)
+                                (pivot_scan_first A F fabs lt_irrefl lt_trans lt_le_trans M j k pv p H)))).
+Qed.
+
+Theorem C02_getrf_multipliers_le_1 : forall bs tbs n (M0 LU : mat A) P, 0 < bs -> 0 < tbs ->
+  getrf A F fabs bs tbs n M0 = LUOk A LU P -> forall i c, c < i < n -> fleb F (fabs (LU i c)) (fone F) = true.
+Proof.
+  intros bs tbs n M0 LU P Hb Htb H.
+  exact (proj2 (proj2 (proj2 (getrf_correct A F fabs Fth feqb_spec lt_irrefl lt_trans le_of_nlt le_mul_r abs_mul abs_pos bs tbs n M0 LU P Hb Htb H)))).
+Qed.
+
+Theorem C02_getrf_fail_zero_column : forall bs tbs n (M0 M' : mat A) j, 0 < bs ->
+  getrf A F fabs bs tbs n M0 = LUFail A j M' -> j < n /\ forall i, j <= i < n -> M' i j = fzero F.
+Proof. exact (getrf_fail_zero_column A F fabs feqb_spec lt_irrefl lt_trans abs_pos abs_0). Qed.
+End OrderedField.
 End AnyField.
 
 Print Assumptions C02_trsv_correct.
@@ -104,6 +217,18 @@ Print Assumptions C02_cholesky_solve_correct.
 Print Assumptions C02_cholesky_solve_succeeds.
 Print Assumptions C02_cholesky_solve_with_correct.
 Print Assumptions C02_inv_prod_is_solve_partial.
+Print Assumptions C02_potrf_blocked_is_unblocked.
+Print Assumptions C02_potrf_blocked_correct.
+Print Assumptions C02_potrf_unblocked_implies_blocked.
+Print Assumptions C02_getrf_no_exc.
+Print Assumptions C02_getrf_PA_LU.
+Print Assumptions C02_lu_solve_correct.
+Print Assumptions C02_lu_solve_right_correct.
+Print Assumptions C02_lu_solve_total.
+Print Assumptions C02_lu_solve_full_correct.
+Print Assumptions C02_pivot_rule.
+Print Assumptions C02_getrf_multipliers_le_1.
+Print Assumptions C02_getrf_fail_zero_column.
 
 (* the rational instantiation the extracted model runs with satisfies the hypotheses of the section above *)
 Theorem C02_Q_instance : forall sq,
@@ -117,3 +242,30 @@ Print Assumptions C02_Q_instance.
 Theorem C02_Q_sqrt_hypothesis_satisfiable : sqrt_exact_lower Qc (qc_ops ex_sq) 2 2 ex_M.
 Proof. exact ex_sqrt_exact. Qed.
 Print Assumptions C02_Q_sqrt_hypothesis_satisfiable.
+
+(* the order / absolute-value laws of section OrderedField hold over Qc with fabs = Qcabs *)
+Theorem C02_Q_order_instance : forall sq,
+  (forall x, fltb (qc_ops sq) x x = false) /\
+  (forall x y z, fltb (qc_ops sq) y x = false -> fltb (qc_ops sq) y z = true -> fltb (qc_ops sq) z x = false) /\
+  (forall x y z, fltb (qc_ops sq) y x = false -> fltb (qc_ops sq) y z = true -> fltb (qc_ops sq) x z = true) /\
+  (forall x y, fltb (qc_ops sq) y x = false -> fleb (qc_ops sq) x y = true) /\
+  (forall x y z, fleb (qc_ops sq) x y = true -> fltb (qc_ops sq) (fzero (qc_ops sq)) z = true ->
+     fleb (qc_ops sq) (fmul (qc_ops sq) x z) (fmul (qc_ops sq) y z) = true) /\
+  (forall x y, qc_abs (fmul (qc_ops sq) x y) = fmul (qc_ops sq) (qc_abs x) (qc_abs y)) /\
+  (forall x, x <> fzero (qc_ops sq) -> fltb (qc_ops sq) (fzero (qc_ops sq)) (qc_abs x) = true) /\
+  qc_abs (fzero (qc_ops sq)) = fzero (qc_ops sq).
+Proof.
+  intros sq. exact (conj (qc_lt_irrefl sq) (conj (qc_lt_trans sq) (conj (qc_lt_le_trans sq) (conj (qc_le_of_nlt sq)
+    (conj (qc_le_mul_r sq) (conj (qc_abs_mul sq) (conj (qc_abs_pos sq) (qc_abs_0 sq)))))))).
+Qed.
+Print Assumptions C02_Q_order_instance.
+
+(* the hypotheses "getrf ... = LUOk" / "LUFail" / "lu_solve_full ... = Some x" / "potrf_rec ... = BOk" are satisfiable:
+   runs with block size 1 (so the recursion is exercised), with row exchanges and a tie *)
+Theorem C02_Q_getrf_hypothesis_satisfiable :
+  (exists LU P, getrf Qc (qc_ops ex_sq) qc_abs 1 1 3 ex_A3 = LUOk Qc LU P) /\
+  (exists j M', getrf Qc (qc_ops ex_sq) qc_abs 1 1 2
+     (of_rows Qc (qc_ops ex_sq) (cons (cons (qc_make 1 1) (cons (qc_make 2 1) nil)) (cons (cons (qc_make 2 1) (cons (qc_make 4 1) nil)) nil))) = LUFail Qc j M') /\
+  (exists L, potrf_rec Qc (qc_ops ex_sq) 1 1 2 2 0 2 ex_M = BOk Qc L).
+Proof. exact ex_blk_hypotheses_satisfiable. Qed.
+Print Assumptions C02_Q_getrf_hypothesis_satisfiable.
